@@ -104,7 +104,7 @@ impl Conn {
         })
     }
 
-    #[cfg(all(test, feature = "server"))]
+    #[cfg(all(any(test, iroh_verif), feature = "server"))]
     pub(crate) fn test(io: tokio::io::DuplexStream, protocol_version: ProtocolVersion) -> Self {
         use crate::protos::relay::MAX_FRAME_SIZE;
         Self {
